@@ -671,7 +671,10 @@ func marshalBigInt(info TypeInfo, value interface{}) ([]byte, error) {
 	case uint8:
 		return encBigInt(int64(v)), nil
 	case big.Int:
-		return encBigInt2C(&v), nil
+		if !v.IsInt64() {
+			return nil, marshalErrorf("marshal bigint: value %v out of range", &v)
+		}
+		return encBigInt(v.Int64()), nil
 	case string:
 		i, err := strconv.ParseInt(value.(string), 10, 64)
 		if err != nil {
